@@ -151,6 +151,8 @@ def run_check(pid: str, tier: str, seed: int) -> int:
     exit_code = 0
     replays = []
     rdir = os.path.join(ROOT, "replays", pid)
+    if not by_class and os.path.exists(os.path.join(rdir, "_all.json")):
+        os.remove(os.path.join(rdir, "_all.json"))
     if by_class:
         os.makedirs(rdir, exist_ok=True)
         with open(os.path.join(rdir, "_all.json"), "w") as f:
